@@ -174,7 +174,9 @@ TreeFails(e) ==
                                    e.alone[j].tree.k # "none" /\ Verdict(e.alone[j].ty, e.alone[j].val) = "R"}}
                     maybe == {e.alone[i].tree : i \in {j \in DOMAIN e.alone : e.alone[j].tree.k # "none"}}
                     \* (a mapping entry failing on both key and value is reported once: either tree may be the child)
-                IN IF (e.ty.k \in DictKinds \/ theirs \subseteq mine) /\ mine \subseteq maybe THEN {} ELSE {"child-not-standalone"}
+                    \* (the value under a duplicated key is reported as a duplicate, it is not converted)
+                    hasdup == \E i \in DOMAIN e.tree.ch : e.tree.ch[i][2].k = "dup"
+                IN IF (e.ty.k \in DictKinds \/ hasdup \/ theirs \subseteq mine) /\ mine \subseteq maybe THEN {} ELSE {"child-not-standalone"}
            ELSE {})
 
 -----------------------------------------------------------------------------
